@@ -49,7 +49,7 @@ PROPS = {
         "assumptions": ["sync/atomic operations are sequentially consistent", "skiplist insert/delete on the snapshot sets are atomic (C13)", "a goroutine closes only handles it holds"],
     },
     "C02": {
-        "runs": [run("mvcc", 500, 10000)],
+        "runs": [run("mvcc", 500, 10000), run("cmps", 1, 1)],
         "level_text": "Refinement theorem mvcc_refines_spec: for every total-preorder comparator and EVERY finite operation sequence (Put/Delete/GetNode/DeleteNode through any handle/NewSnapshot/Open/Close in any order/GC/worker steps anywhere/Scan/ItemsCount through existing writers) every output of the model equals that of a sorted-list set specification with fresh handles and frozen snapshots; the store invariant holds in every reachable state; counts agree. Proved by induction over the op list with a relation carrying the store invariant, the snapshot bookkeeping and the garbage-list bookkeeping. The model is tied to nitro.go by running generated well-formed histories on real instances (both comparators, Go-managed memory and the guard allocator) and evaluating the model on the same history in Coq: per-op results, node identities, Count(), ItemsCount and full scans must be equal.",
         "level_note": "Full for single-goroutine histories (the property's quantifier). The skiplist appears as its quiescent level-0 content (sorted list); that abstraction is what C13/C14 are about. DeleteNode handles whose node has been freed are excluded for user-managed memory (caller misuse; see C04).",
         "assumptions": ["operations are issued from one goroutine (C03 covers concurrent writers)", "the key comparator is a total preorder", "DeleteNode is given a node that has not been freed"],
